@@ -42,7 +42,10 @@ def _dir(draw):
     files = draw(st.lists(st.tuples(gen.names(toplevel=True, hostile_ratio=0.3), st.sampled_from(["f", "f", "d", "h"])),
                           min_size=n, max_size=n, unique_by=lambda t: t[0] + (".html" if t[1] == "h" else "")))
     deco = draw(st.sampled_from(["plain", "plain", "names", "cap", "abstract", "zipparent", "abstract-linksyntax"]))
-    return {"files": [list(f) for f in files], "deco": deco, "title": draw(st.text("abcdef", min_size=1, max_size=5))}
+    # the listed directory: the root, or a sub-directory whose name (part of every selector, path and log line on the way)
+    # contains what a format string, a URL or a pattern would expand
+    where = draw(st.sampled_from(["", "", "sub", "50%", "rate%d", "100% juice", "a b", "caf\xc3\xa9", "{0}", "x\\1"]))
+    return {"files": [list(f) for f in files], "deco": deco, "title": draw(st.text("abcdef", min_size=1, max_size=5)), "where": where}
 
 
 def _draw_dirs(tier, seed):
@@ -73,6 +76,11 @@ def _draw_dirs(tier, seed):
             if h not in needed or have.count(h) > 1:
                 out[j] = dict(out[j], deco=deco)
                 break
+    # and both kinds of place: the root, and a sub-directory with a '%' in its name
+    if out and not any("%" in d.get("where", "") for d in out):
+        out[-1] = dict(out[-1], where=["50%", "rate%d", "100% juice"][seed % 3])
+    if len(out) > 1 and not any(d.get("where", "") == "" for d in out):
+        out[0] = dict(out[0], where="")
     _dirs_cache[key] = out
     return out
 
@@ -113,7 +121,13 @@ def _spec(d):
     return spec
 
 
+_WHERE = [""]  # the listed directory, relative to the document root ('' = the root itself); set per case
+
+
 def _listing(cfg, form, sel=b"/"):
+    """listing of the case's directory (sel '/') or of something in it"""
+    if _WHERE[0]:
+        sel = b"/" + world.b(_WHERE[0]) + (sel if sel != b"/" else b"")
     r = drive.serve(cfg, clients.encode(form, sel), tls=clients.FORMS[form][0])
     return r
 
@@ -122,12 +136,15 @@ def check_case(case, ctx):
     d = case["dir"]
     k, of = case["k"], case["of"]
     full = d["deco"] == "zipparent"
-    base, root = world.build(_spec(d))
+    where = d.get("where", "")
+    _WHERE[0] = where
+    base, site_root = world.build([[(where + "/" if where else "") + e[0]] + list(e[1:]) for e in _spec(d)])
+    root = os.fsdecode(os.fsencode(site_root) + b"/" + world.b(where)) if where else site_root  # the listed directory
     fails = []
     try:
         over = {"handlers.dir.DirHandler::cachetime": "100000"}
-        cfg = drive.make_config(root, "full" if full else "shipped", **over)
-        ref_cfg = drive.make_config(root, "full" if full else "shipped",
+        cfg = drive.make_config(site_root, "full" if full else "shipped", **over)
+        ref_cfg = drive.make_config(site_root, "full" if full else "shipped",
                                     **{"handlers.dir.DirHandler::cachetime": "0",
                                        "handlers.dir.DirHandler::cachefile": ".cache.pygopherd.ref"})
         forms = ["gopher", "http", "gdollar", "gemini"]
@@ -193,7 +210,7 @@ def check_case(case, ctx):
             fails += _killed_writer(cfg, root, ref, forms, ctx, d)
         if k == 4:
             fails += _cut_while_decoding(cfg, root, ref, forms, ctx, d)
-        ctx.label("deco:" + d["deco"], "cachefiles:%d" % len(caches))
+        ctx.label("deco:" + d["deco"], "cachefiles:%d" % len(caches), "listed:%s" % ("root" if not where else "subdirectory"))
         if k == 0:
             ctx.sample({"dir": d, "cache_files": caches}, cls=d["deco"])
         return _dedup(fails)
